@@ -30,8 +30,10 @@ Tie to the code (this file), three instruments, all executed on real objects:
      Tracker) and the model is executed in Coq under the same labelled
      interleaving (run_plan; theorem labelled_plan_is_schedule) -- sc_agrees /
      sc_spec_ok.
-  5. CREDENTIALS: HTTP basic authentication state on the shared transport
-     (outside the anchors; reported only under a registered key).
+  5. CREDENTIALS: HTTP basic authentication state on the shared transport: a
+     client with username/password against a server demanding authentication,
+     thread A suspended at every event inside the transport while thread B
+     (other URL) runs (finding key C13:transport-credentials-race).
   3. CLONES: clone() on every generated client state, option isolation both
      ways, own message history, shared WSDL (cl_agrees / cl_spec_ok).
   4. Endpoint.__getattr__ probed the way copy.deepcopy meets it while cloning
@@ -174,6 +176,7 @@ VARIANTS = {
     "retxml": {"retxml": True},
     "noprefix": {"prefixes": False},
     "headers": {"headers": {"X-c13": "1"}},
+    "creds": {"username": "u", "password": "p"},
 }
 VARIANT_LIST = ["plain", "pretty", "nofaults", "retxml", "noprefix", "headers"]
 
@@ -508,7 +511,7 @@ class Graph(object):
 
     @staticmethod
     def vid(v):
-        if isinstance(v, _ATOM):
+        if isinstance(v, _ATOM) or (isinstance(v, tuple) and all(isinstance(x, _ATOM) for x in v)):
             r = repr(v)
             return ("v", r if len(r) < 200 else r[:200] + "#%d" % hash(r))
         return ("o", id(v))
@@ -609,6 +612,18 @@ class Classifier(object):
             cur, hop = p_[0], p_[1]
         owner = g.objs.get(cur)
         attr = hop[1] if isinstance(hop, tuple) else str(hop)
+        tr, hops = owner, 0
+        while tr is not None and not isinstance(tr, suds.transport.http.HttpTransport) and hops < 4:
+            p_ = g.parent.get(id(tr))
+            tr = g.objs.get(p_[0]) if p_ and p_[0] is not None else None
+            hops += 1
+        if isinstance(tr, suds.transport.http.HttpTransport) and tr is not owner:
+            # state of an object the transport holds (its password manager): same model cell
+            # as the transport's own per-request attributes
+            who = [n for n, c in enumerate(g.clients) if c.options.transport is tr]
+            return "(LProxy %s)" % cN(who[0] if who else 98), \
+                "HttpTransport.%s.%s -> %s of the transport of client %s" % (
+                    (g.parent.get(id(owner)) or (None, ("", "?")))[1][1], attr, field[1], who[0] if who else "?")
         if isinstance(owner, type) or type(owner) is type(sys):
             oname = ("class %s.%s" % (owner.__module__, owner.__name__)) if isinstance(owner, type) \
                 else "module " + owner.__name__
@@ -793,6 +808,16 @@ class Footprint(object):
             # is for the URL of the request that assigned it
             creds = run_impl(o.credentials)
             idem = creds[0] == "ok" and None in creds[1] and getattr(o.pm, "passwd", None) == {}
+        elif loc.startswith("(LProxy") and new is not None:
+            # an entry of the transport's password manager: (user, password) of the transport's
+            # CURRENT options, or the per-realm dictionary holding such entries
+            tr = None
+            for c in g.clients:
+                if what.endswith("of the transport of client %d" % cl.client_no(c)):
+                    tr = c.options.transport
+            creds = run_impl(tr.credentials) if tr is not None else ("exc", None)
+            idem = creds[0] == "ok" and None not in creds[1] and (
+                new == ("v", repr(tuple(creds[1]))) or (field == ("key", "None") and new[0] == "o"))
         elif loc.startswith("(LFactory") and new is not None and new[0] == "o":
             cls = None
             for k, v in o.items():
@@ -1472,6 +1497,8 @@ def run(ck):
     for kind in KIND_LIST:
         for variant in (VARIANT_LIST if not quick else ["plain", rng.choice(VARIANT_LIST[1:])]):
             fp_plan.append((kind, variant, "orig"))
+        if kind in ("doc-echo", "enc-item", "lit-echo"):
+            fp_plan.append((kind, "creds", "orig"))      # add_password on the shared transport
         fp_plan.append((kind, "plain", "clone"))
         fp_plan.append((kind, rng.choice(VARIANT_LIST), "clone2"))
     transient_every = 40 if quick else 10
@@ -1549,7 +1576,7 @@ def run(ck):
 
     # ---------------- instrument 5: credentials on the shared transport ----------------
     for o in credentials_scenario(ck, world, rng)[:1]:
-        report_or_note(ck, "C13:transport-credentials-race",
+        ck.failing_input("C13:transport-credentials-race",
                        "with username/password configured, a %s call suspended at %s while a %s call (other URL, "
                        "same client) runs gets %s although it succeeds alone: transport.pm is replaced by every "
                        "request" % (o["kinds"][0], o["where"], o["kinds"][1], o["got"][1]), o)
@@ -1829,19 +1856,6 @@ def credentials_scenario(ck, world, rng):
             if len(observations) >= 3:
                 return observations
     return observations
-
-
-def report_or_note(ck, key, what, payload):
-    """A finding in code outside the property's anchors: a VIOLATION /
-    KNOWN-FINDING only when the key is registered in the known-findings file
-    (status known or fixed); otherwise written to the evidence file."""
-    registered = [f for f in common.load_known().get("findings", [])
-                  if f.get("property") == "C13" and f.get("key") == key]
-    if registered:
-        ck.failing_input(key, what, payload)
-    else:
-        ck.extra.setdefault("unregistered_observations", []).append({"key": key, "what": what, "payload": payload})
-        print("NOTE property=C13 unregistered observation [%s]: %s" % (key, what))
 
 
 # ---------------------------------------------------------------------------
